@@ -144,3 +144,135 @@ Proof.
 Qed.
 
 End Moved.
+
+(* ------------------------------------------------------------------ *)
+(* Element.promotePrefixes                                             *)
+(* ------------------------------------------------------------------ *)
+
+Lemma assoc_dset : forall l p u q, assoc q (dset l p u) = if N.eqb q p then Some u else assoc q l.
+Proof.
+  induction l as [|[k v] l IH]; intros p u q; cbn.
+  - destruct (N.eqb q p); reflexivity.
+  - destruct (N.eqb p k) eqn:E; cbn.
+    + apply N.eqb_eq in E. subst k. destruct (N.eqb q p); reflexivity.
+    + rewrite IH. destruct (N.eqb q k) eqn:E2; [|reflexivity].
+      apply N.eqb_eq in E2. subst k. rewrite N.eqb_sym, E. reflexivity.
+Qed.
+
+Lemma assoc_dremove : forall l p q, assoc q (dremove p l) = if N.eqb q p then None else assoc q l.
+Proof.
+  induction l as [|[k v] l IH]; intros p q; cbn.
+  - destruct (N.eqb q p); reflexivity.
+  - destruct (N.eqb p k) eqn:E; cbn.
+    + apply N.eqb_eq in E. subst k. rewrite IH. destruct (N.eqb q p); reflexivity.
+    + rewrite IH. destruct (N.eqb q k) eqn:E2; [|reflexivity].
+      apply N.eqb_eq in E2. subst k. rewrite N.eqb_sym, E. reflexivity.
+Qed.
+
+(* bindings already on the parent are never overwritten *)
+Lemma promote_keeps_parent_l : forall pp todo dn dp dn' dp',
+  promote_decls false pp todo dn dp = (dn', dp') ->
+  forall p u, assoc p dp = Some u -> assoc p dp' = Some u.
+Proof.
+  induction todo as [|[q v] todo IH]; intros dn dp dn' dp' E p u A; cbn in E.
+  - injection E as <- <-. exact A.
+  - destruct (assoc q dp) as [pu|] eqn:Aq.
+    + destruct (N.eqb pu v); cbn in E; eapply IH; eauto.
+    + destruct (match pp with Some x => negb (N.eqb q x) | None => true end); [|eapply IH; eauto].
+      eapply IH; [exact E|]. rewrite assoc_dset. destruct (N.eqb p q) eqn:Epq; [|exact A].
+      apply N.eqb_eq in Epq. subst q. congruence.
+Qed.
+
+(* a declaration that collides with a different binding on the parent stays on the element *)
+Lemma promote_collision_stays_l : forall pp todo dn dp dn' dp' p u pu,
+  promote_decls false pp todo dn dp = (dn', dp') ->
+  (forall u', In (p, u') todo -> u' = u) ->
+  assoc p dn = Some u -> assoc p dp = Some pu -> pu <> u -> assoc p dn' = Some u.
+Proof.
+  induction todo as [|[q v] todo IH]; intros dn dp dn' dp' p u pu E U A Ap Ne; cbn in E.
+  - injection E as <- <-. exact A.
+  - assert (U' : forall u', In (p, u') todo -> u' = u) by (intros u' I; apply U; right; exact I).
+    destruct (N.eqb p q) eqn:Epq.
+    + apply N.eqb_eq in Epq. subst q. rewrite Ap in E.
+      assert (v = u) by (apply U; left; reflexivity). subst v.
+      destruct (N.eqb pu u) eqn:Eu; [apply N.eqb_eq in Eu; contradiction|]. cbn in E.
+      eapply IH; eauto.
+    + assert (Keep : assoc p (dremove q dn) = Some u) by (rewrite assoc_dremove, Epq; exact A).
+      destruct (assoc q dp) as [qu|] eqn:Aq.
+      * destruct (N.eqb qu v); cbn in E; eapply IH; eauto.
+      * destruct (match pp with Some x => negb (N.eqb q x) | None => true end); [|eapply IH; eauto].
+        eapply IH; [exact E|exact U'|exact Keep| |exact Ne]. rewrite assoc_dset, Epq. exact Ap.
+Qed.
+
+Lemma assoc_in_nodup : forall l p u, NoDup (map fst l) -> In (p, u) l -> assoc p l = Some u.
+Proof.
+  induction l as [|[k v] l IH]; intros p u ND I; [contradiction|]. cbn in *. inversion ND as [|? ? Nk ND']; subst.
+  destruct I as [Eq|I].
+  - injection Eq as -> ->. rewrite N.eqb_refl. reflexivity.
+  - destruct (N.eqb p k) eqn:E; [|apply IH; assumption].
+    apply N.eqb_eq in E. subst k. exfalso. apply Nk. apply in_map_iff. exists (p, u). auto.
+Qed.
+
+(* what every prefix means at the element is what it meant before *)
+Lemma promote_keeps_meaning_gen : forall pp todo dn dp dn' dp',
+  promote_decls false pp todo dn dp = (dn', dp') ->
+  NoDup (map fst todo) -> (forall p u, In (p, u) todo -> assoc p dn = Some u) ->
+  forall p, means dn' dp' p = means dn dp p.
+Proof.
+  induction todo as [|[q v] todo IH]; intros dn dp dn' dp' E ND Inv p; cbn in E.
+  - injection E as <- <-. reflexivity.
+  - cbn in ND. inversion ND as [|? ? Nq ND']; subst.
+    assert (Aq : assoc q dn = Some v) by (apply Inv; left; reflexivity).
+    assert (Inv' : forall dn2, (forall r, N.eqb r q = false -> assoc r dn2 = assoc r dn) ->
+                   forall p0 u0, In (p0, u0) todo -> assoc p0 dn2 = Some u0).
+    { intros dn2 Same p0 u0 I. rewrite Same; [apply Inv; right; exact I|].
+      apply N.eqb_neq. intros ->. apply Nq. apply in_map_iff. exists (q, u0). auto. }
+    assert (Rm : forall r, N.eqb r q = false -> assoc r (dremove q dn) = assoc r dn).
+    { intros r Er. rewrite assoc_dremove, Er. reflexivity. }
+    destruct (assoc q dp) as [pu|] eqn:Ap.
+    + destruct (N.eqb pu v) eqn:Eu; cbn in E.
+      * apply N.eqb_eq in Eu. subst pu. rewrite (IH _ _ _ _ E ND' (Inv' _ Rm) p).
+        unfold means. rewrite assoc_dremove. destruct (N.eqb p q) eqn:Epq; [|reflexivity].
+        apply N.eqb_eq in Epq. subst q. rewrite Aq, Ap. reflexivity.
+      * exact (IH _ _ _ _ E ND' (fun p0 u0 I => Inv p0 u0 (or_intror I)) p).
+    + destruct (match pp with Some x => negb (N.eqb q x) | None => true end).
+      * rewrite (IH _ _ _ _ E ND' (Inv' _ Rm) p).
+        unfold means. rewrite assoc_dremove, assoc_dset. destruct (N.eqb p q) eqn:Epq; [|reflexivity].
+        apply N.eqb_eq in Epq. subst q. rewrite Aq. reflexivity.
+      * exact (IH _ _ _ _ E ND' (fun p0 u0 I => Inv p0 u0 (or_intror I)) p).
+Qed.
+
+Lemma promote_keeps_meaning_l : forall pp dn dp dn' dp',
+  NoDup (map fst dn) -> promote_decls false pp dn dn dp = (dn', dp') ->
+  forall p, means dn' dp' p = means dn dp p.
+Proof.
+  intros pp dn dp dn' dp' ND E p. eapply promote_keeps_meaning_gen; eauto.
+  intros q u I. apply assoc_in_nodup; assumption.
+Qed.
+
+(* on the heap: a sibling that reads a prefix bound on the common parent (or on
+   itself) reads the same after element n was promoted *)
+Lemma promote_keeps_siblings_l : forall h n q x p u,
+  p_parent (pgetn h n) = Some q -> p_parent (pgetn h x) = Some q -> p_parent (pgetn h q) = None ->
+  x <> n -> x <> q -> q < length h ->
+  (assoc p (p_decls (pgetn h x)) <> None \/ assoc p (p_decls (pgetn h q)) <> None) ->
+  resolves h x p u -> resolves (promote_at false h n) x p u.
+Proof.
+  intros h n q x p u Pn Px Pq Nxn Nxq Lq Bound [f E].
+  unfold promote_at. rewrite Pn.
+  destruct (promote_decls false None (p_decls (pgetn h n)) (p_decls (pgetn h n)) (p_decls (pgetn h q))) as [dn' dp'] eqn:Ep.
+  cbn [fst snd].
+  set (h' := psetn (psetn h n _) q _).
+  assert (Hx : pgetn h' x = pgetn h x).
+  { unfold h'. rewrite pgetn_psetn_neq by exact Nxq. apply pgetn_psetn_neq. exact Nxn. }
+  assert (Hq : p_decls (pgetn h' q) = dp' /\ p_parent (pgetn h' q) = None).
+  { unfold h'. rewrite pgetn_psetn_eq by (rewrite length_psetn; exact Lq). cbn. auto. }
+  destruct f as [|f]; [discriminate|]. cbn in E.
+  destruct (assoc p (p_decls (pgetn h x))) as [ux|] eqn:Ax.
+  - injection E as <-. exists 1. cbn. rewrite Hx, Ax. reflexivity.
+  - rewrite Px in E. destruct f as [|f]; [discriminate|]. cbn in E. rewrite Pq in E.
+    destruct (assoc p (p_decls (pgetn h q))) as [uq|] eqn:Aq.
+    + injection E as <-. exists 2. cbn. rewrite Hx, Ax, Px. destruct Hq as [-> ->].
+      rewrite (promote_keeps_parent_l _ _ _ _ _ _ Ep p uq Aq). reflexivity.
+    + destruct Bound as [B|B]; congruence.
+Qed.
